@@ -1713,10 +1713,10 @@ class SourceFinder(object):
                 xwidth = int(round(width)) + 1
 
                 # adjust the size of the island to include this source
-                xmin = min(xmin, max(0, x - xwidth / 2))
-                ymin = min(ymin, max(0, y - ywidth / 2))
-                xmax = max(xmax, min(shape[0], x + xwidth / 2 + 1))
-                ymax = max(ymax, min(shape[1], y + ywidth / 2 + 1))
+                xmin = min(xmin, max(0, x - xwidth // 2))
+                ymin = min(ymin, max(0, y - ywidth // 2))
+                xmax = max(xmax, min(shape[0], x + xwidth // 2 + 1))
+                ymax = max(ymax, min(shape[1], y + ywidth // 2 + 1))
 
                 s_lims = [0.8 * min(sx, pixbeam.b * FWHM2CC),
                           max(sy, sx) * 1.25]
